@@ -1313,6 +1313,14 @@ HAND_OK_XML = [
     ["<r><a>1</a><b>x</b><a>2</a><b>y</b><c>z</c></r>"],
     ['<p:r xmlns:p="urn:p" xmlns:q="urn:q" q:at="1" at2="v"><p:a>1</p:a><q:b>x</q:b><c>z</c></p:r>'],
     ["<r><p>hello <b>x</b> world</p></r>"],
+    # xsi:nil elements that also carry ordinary attributes, xsi:nil written first / in the middle / last, with no other
+    # occurrence supplying the attributes (seeded/C13-nil-attrs-break-r7) — plain, namespaced, on simple content, on the root
+    [f'<order xmlns:xsi="{S.XSI}"><id>7</id><discount xsi:nil="true" code="SUMMER" rate="15"/></order>'],
+    [f'<order xmlns:xsi="{S.XSI}"><id>7</id><discount code="SUMMER" xsi:nil="true" rate="15"/></order>',
+     f'<order xmlns:xsi="{S.XSI}"><id>8</id><discount code="WINTER" rate="5" xsi:nil="true"/></order>'],
+    [f'<r xmlns:xsi="{S.XSI}" xmlns:p="urn:a"><v xsi:nil="true" p:k="1" k="x"/><v p:k="2" k="y" xsi:nil="true"/><w xsi:nil="true" u="2020-05"/></r>'],
+    [f'<r xmlns:xsi="{S.XSI}"><s xsi:nil="true" unit="kg"/><s unit="g">12.5</s><t xsi:nil="true" a="1"><!--nil--></t></r>'],
+    [f'<r xmlns:xsi="{S.XSI}" xsi:nil="true" id="1" lang="en"/>'],
     # nil in one place, children / attributes + text in another, in both orders (fixed: c13e-01)
     [f'<r xmlns:xsi="{S.XSI}"><i xsi:nil="true"/><i><a>1</a></i></r>'],
     [f'<r xmlns:xsi="{S.XSI}"><i><a>1</a></i><i xsi:nil="true"/></r>'],
